@@ -14,14 +14,15 @@ theorem setAt_eq {α} (xs : List α) (k : Int) (v : α) (h0 : 0 ≤ k) (h1 : k <
     setAt xs k v = .ok (xs.set k.toNat v) := by simp [setAt, h0, h1]
 
 /-- `x[i] = v` on a list writes position `pyIndex len i` — the position `x[i]` reads — and raises
-exactly when the read raises -/
-theorem set_list_addresses_pyIndex (xs : List Val) (i v : Val) (every : Bool) (hl : lenOk xs.length) :
-    setIndex (.list xs) [.index i] (some v) every = (match i with
+exactly when the read raises (`value = none` is the "drop the LHS" write of null) -/
+theorem set_list_addresses_pyIndex_opt (xs : List Val) (i : Val) (value : Option Val) (every : Bool)
+    (hl : lenOk xs.length) :
+    setIndex (.list xs) [.index i] value every = (match i with
       | .int n => (match pyIndex xs.length n with
-        | some k => .ok (.list (xs.set k.toNat v))
+        | some k => .ok (.list (xs.set k.toNat (value.getD .null)))
         | none => .throw)
       | _ => .throw) := by
-  simp only [setIndex, bind_ok, Option.getD_some]
+  simp only [setIndex, bind_ok]
   rw [index_obj_is_python _ i hl]
   cases i <;> simp
   rename_i n
@@ -29,8 +30,16 @@ theorem set_list_addresses_pyIndex (xs : List Val) (i v : Val) (every : Bool) (h
   | none => simp
   | some k =>
     have := pyIndex_range h
-    simp [elemAt_eq xs k this.1 this.2, setAt_eq xs k v this.1 this.2,
+    simp [elemAt_eq xs k this.1 this.2, setAt_eq xs k _ this.1 this.2,
       List.getElem?_eq_getElem (by omega : k.toNat < xs.length), ofOpt]
+
+theorem set_list_addresses_pyIndex (xs : List Val) (i v : Val) (every : Bool) (hl : lenOk xs.length) :
+    setIndex (.list xs) [.index i] (some v) every = (match i with
+      | .int n => (match pyIndex xs.length n with
+        | some k => .ok (.list (xs.set k.toNat v))
+        | none => .throw)
+      | _ => .throw) := by
+  rw [set_list_addresses_pyIndex_opt xs i (some v) every hl]; rfl
 
 /-- **read_write_same_position**: after `x[n] = v` the read `x[n]` returns `v`, every read that
 addresses another position is unchanged, and the length is unchanged -/
@@ -118,6 +127,282 @@ theorem updateAt_refines (a k v : Val) (hs : seqOk a) :
       have := pyIndex_range h
       simp [setAt_eq xs j v this.1 this.2, List.getElem?_eq_getElem (by omega : j.toNat < xs.length), ofOpt]
   | _ => simp [Index.updateAt, PyIndex.updateAt]
+
+/-! ### every path: `x[i₁]…[iₙ] = v` and `every x[…][a:b]… = v` -/
+
+/-- the Rust length invariant for a value and for every list nested in it -/
+inductive DeepOk : Val → Prop
+  | null : DeepOk .null
+  | int (v) : DeepOk (.int v)
+  | num (t) : DeepOk (.num t)
+  | other (t) : DeepOk (.other t)
+  | rep (x) : DeepOk (.rep x)
+  | cyc (xs pos) : lenOk xs.length → xs.length ≠ 0 → pos < xs.length → DeepOk (.cyc xs pos)
+  | str (bs) : lenOk bs.length → DeepOk (.str bs)
+  | bytes (bs) : lenOk bs.length → DeepOk (.bytes bs)
+  | vec (xs) : lenOk xs.length → DeepOk (.vec xs)
+  | list (xs) : lenOk xs.length → (∀ x ∈ xs, DeepOk x) → DeepOk (.list xs)
+  | stream (xs) : lenOk xs.length → (∀ x ∈ xs, DeepOk x) → DeepOk (.stream xs)
+
+def isIndexStep : Ix → Bool
+  | .index _ => true
+  | .slice _ _ => false
+
+theorem mapOut_congr {α β} (f g : α → Out β) (l : List α) (h : ∀ e ∈ l, f e = g e) :
+    mapOut f l = mapOut g l := by
+  induction l with
+  | nil => rfl
+  | cons a t ih =>
+    simp only [mapOut, h a (by simp)]
+    rw [ih fun e he => h e (by simp [he])]
+
+theorem mem_sliceOf {α} {xs : List α} {lo hi : Option Int} {e : α} (h : e ∈ sliceOf xs lo hi) :
+    e ∈ xs := List.mem_of_mem_drop (List.mem_of_mem_take h)
+
+/-- one index step into a list (or a stream, which is first forced into a list) -/
+theorem set_step_index (xs : List Val) (i v : Val) (rest : List Ix) (every : Bool)
+    (hl : lenOk xs.length)
+    (ih : ∀ x ∈ xs, setIndex x rest (some v) every = setPath x rest v every) :
+    ((pythonicIndex xs.length i).bind fun k => (elemAt xs k).bind fun old =>
+        (setIndex old rest (some v) every).bind fun new => (setAt xs k new).map Val.list)
+      = (match asInt i with
+        | some n => (match pyIndex xs.length n with
+          | some k => (ofOpt xs[k.toNat]?).bind fun old =>
+              (setPath old rest v every).bind fun new => .ok (.list (xs.set k.toNat new))
+          | none => .throw)
+        | none => .throw) := by
+  rw [index_obj_is_python _ i hl]
+  cases i <;> simp [asInt]
+  rename_i n
+  cases h : pyIndex (xs.length : Int) n with
+  | none => simp
+  | some k =>
+    have hr := pyIndex_range h
+    have hk : k.toNat < xs.length := by omega
+    simp only [bind_ok, elemAt_eq xs k hr.1 hr.2, List.getElem?_eq_getElem hk, ofOpt]
+    rw [ih _ (List.getElem_mem hk)]
+    cases setPath xs[k.toNat] rest v every <;> simp [setAt_eq xs k _ hr.1 hr.2]
+
+/-- one `every` slice step into a list -/
+theorem set_step_slice (xs : List Val) (lo hi : Option Val) (v : Val) (rest : List Ix)
+    (hl : lenOk xs.length)
+    (ih : ∀ x ∈ xs, setIndex x rest (some v) true = setPath x rest v true) :
+    ((pythonicSliceObj xs.length lo hi).bind fun p => (subRange xs p.1 p.2).bind fun mid =>
+        (mapOut (fun e => setIndex e rest (some v) true) mid).bind fun mid' =>
+          .ok (Val.list (xs.take p.1.toNat ++ mid' ++ xs.drop p.2.toNat)))
+      = ((bound lo).bind fun lo => (bound hi).bind fun hi =>
+          (mapOut (fun e => setPath e rest v true) (sliceOf xs lo hi)).bind fun mid =>
+            .ok (Val.list (xs.take (pySlice xs.length lo hi).1.toNat ++ mid
+                          ++ xs.drop (pySlice xs.length lo hi).2.toNat))) := by
+  rw [slice_obj_is_python _ lo hi hl]
+  cases bound lo <;> simp
+  cases bound hi <;> simp
+  rename_i l h
+  have hb := pySlice_bounds xs.length l h hl.1
+  rw [subRange_eq xs _ _ hb.1 hb.2.1 hb.2.2]
+  simp only [bind_ok]
+  have : (xs.drop (pySlice (↑xs.length) l h).1.toNat).take
+      ((pySlice (↑xs.length) l h).2 - (pySlice (↑xs.length) l h).1).toNat = sliceOf xs l h := rfl
+  rw [this, mapOut_congr _ (fun e => setPath e rest v true) _ fun e he => ih e (mem_sliceOf he)]
+
+/-- one index step into a string: the value must be a one-byte string, the result must stay UTF-8 -/
+theorem set_str (bs : List Nat) (i v : Val) (rest : List Ix) (every : Bool) (hl : lenOk bs.length) :
+    setIndex (.str bs) (.index i :: rest) (some v) every
+      = setPath (.str bs) (.index i :: rest) v every := by
+  simp only [setIndex, bind_ok, setPath]
+  cases rest with
+  | cons r rs =>
+    cases i <;> simp [asInt]
+  | nil =>
+    simp only [List.isEmpty_nil, if_true]
+    cases i with
+    | int n =>
+      simp only [asInt]
+      cases v with
+      | str vb =>
+        cases vb with
+        | nil => simp
+        | cons b t =>
+          cases t with
+          | cons _ _ => simp
+          | nil =>
+            simp only [List.length_singleton, if_true, List.headD_cons]
+            rw [index_obj_is_python _ _ hl]
+            simp only
+            cases h : pyIndex (bs.length : Int) n with
+            | none => simp
+            | some k =>
+              have := pyIndex_range h
+              simp [setAt_eq bs k _ this.1 this.2]
+      | _ => simp
+    | _ =>
+      simp only [asInt]
+      cases v with
+      | str vb =>
+        by_cases h1 : vb.length = 1 <;> simp [h1, pythonicIndex, isNum, toIsize]
+      | _ => simp
+
+/-- **set_index_refines** — for every lvalue path (any mix of index steps, and slice steps under
+`every`) into any nesting of lists, `set_index` of the code computes what the Spec's `setPath`
+computes: each index step addresses `pyIndex len i`, each slice step the clamped Python range. -/
+theorem set_index_refines (ixs : List Ix) (lhs v : Val) (every : Bool) (hok : DeepOk lhs)
+    (hp : every = true ∨ ∀ ix ∈ ixs, isIndexStep ix = true) :
+    setIndex lhs ixs (some v) every = setPath lhs ixs v every := by
+  induction ixs generalizing lhs with
+  | nil => simp [setIndex, setPath]
+  | cons fi rest ih =>
+    have hp' : every = true ∨ ∀ ix ∈ rest, isIndexStep ix = true := by
+      rcases hp with h | h
+      · exact .inl h
+      · exact .inr fun ix hix => h ix (by simp [hix])
+    cases fi with
+    | index i =>
+      cases hok with
+      | list xs hl hx =>
+        simp only [setIndex, bind_ok, setPath]
+        rw [set_step_index xs i v rest every hl fun x hxm => ih x (hx x hxm) hp']
+        cases asInt i <;> rfl
+      | stream xs hl hx =>
+        simp only [setIndex, bind_ok, setPath]
+        rw [set_step_index xs i v rest every hl fun x hxm => ih x (hx x hxm) hp']
+        cases asInt i <;> rfl
+      | vec xs hl =>
+        simp only [setIndex, bind_ok, setPath]
+        rw [index_obj_is_python _ i hl]
+        cases i <;> simp [asInt]
+        rename_i n
+        by_cases hr : rest = [] <;> by_cases hv : isNum v = true <;> simp [hr, hv]
+        cases h : pyIndex (xs.length : Int) n with
+        | none => simp
+        | some k =>
+          have := pyIndex_range h
+          simp [setAt_eq xs k v this.1 this.2]
+      | bytes bs hl =>
+        simp only [setIndex, bind_ok, setPath]
+        rw [index_obj_is_python _ i hl]
+        cases i <;> simp [asInt]
+        · rename_i n
+          cases rest with
+          | cons _ _ => simp
+          | nil =>
+            simp only [List.isEmpty_nil, if_true]
+            by_cases hv : isNum v = true
+            · simp only [hv, if_true]
+              cases h : pyIndex (bs.length : Int) n with
+              | none => cases toU8 v <;> simp
+              | some k =>
+                have := pyIndex_range h
+                cases toU8 v <;> simp [setAt_eq bs k _ this.1 this.2]
+            · have : toU8 v = none := by cases v <;> simp_all [toU8, isNum]
+              simp [hv, this]
+        all_goals (cases rest <;> simp <;> split <;> simp)
+      | str bs hl => exact set_str bs i v rest every hl
+      | _ => simp [setIndex, setPath]
+    | slice lo hi =>
+      rcases hp with he | hn
+      · subst he
+        cases hok with
+        | list xs hl hx =>
+          simp only [setIndex, bind_ok, setPath, if_true, Bool.not_true, Bool.false_eq_true, if_false]
+          rw [set_step_slice xs lo hi v rest hl fun x hxm => ih x (hx x hxm) (.inl rfl)]
+        | stream xs hl hx =>
+          simp only [setIndex, bind_ok, setPath, if_true, Bool.not_true, Bool.false_eq_true, if_false]
+          rw [set_step_slice xs lo hi v rest hl fun x hxm => ih x (hx x hxm) (.inl rfl)]
+        | _ => simp [setIndex, setPath]
+      · have := hn (.slice lo hi) (by simp)
+        simp [isIndexStep] at this
+
+example : DeepOk (.list [.list [.int 1, .int 2], .list [.int 3]]) := by
+  refine .list _ (by decide) ?_
+  intro x hx
+  simp at hx
+  rcases hx with rfl | rfl
+  · exact .list _ (by decide) (by intro y hy; simp at hy; rcases hy with rfl | rfl <;> exact .int _)
+  · exact .list _ (by decide) (by intro y hy; simp at hy; subst hy; exact .int _)
+
+/-- **mod_path_refines** — `modify_existing_index` (behind `pop x[i]…`, `remove x[i]…[j]`) walks
+the same positions: every index step addresses `pyIndex len i`. -/
+theorem mod_path_refines (ixs : List Ix) (lhs : Val) (f g : Val → Out (Val × Val))
+    (hfg : ∀ v, DeepOk v → f v = g v) (hok : DeepOk lhs) :
+    modPath lhs ixs f = atPath lhs ixs g := by
+  induction ixs generalizing lhs with
+  | nil => simp [modPath, atPath, hfg lhs hok]
+  | cons fi rest ih =>
+    have step : ∀ xs : List Val, lenOk xs.length → (∀ x ∈ xs, DeepOk x) → ∀ i : Val,
+        ((pythonicIndex xs.length i).bind fun k => (elemAt xs k).bind fun old =>
+          (modPath old rest f).bind fun p => (setAt xs k p.2).map fun xs' => (p.1, Val.list xs'))
+        = (match asInt i with
+          | some n => (match pyIndex xs.length n with
+            | some k => (ofOpt xs[k.toNat]?).bind fun old =>
+                (atPath old rest g).bind fun p => .ok (p.1, .list (xs.set k.toNat p.2))
+            | none => .throw)
+          | none => .throw) := by
+      intro xs hl hx i
+      rw [index_obj_is_python _ i hl]
+      cases i <;> simp [asInt]
+      rename_i n
+      cases h : pyIndex (xs.length : Int) n with
+      | none => simp
+      | some k =>
+        have hr := pyIndex_range h
+        have hk : k.toNat < xs.length := by omega
+        simp only [bind_ok, elemAt_eq xs k hr.1 hr.2, List.getElem?_eq_getElem hk, ofOpt]
+        rw [ih _ (hx _ (List.getElem_mem hk))]
+        cases atPath xs[k.toNat] rest g <;> simp [setAt_eq xs k _ hr.1 hr.2]
+    cases fi with
+    | index i =>
+      cases hok with
+      | list xs hl hx =>
+        simp only [modPath, bind_ok, atPath]
+        rw [step xs hl hx i]
+        cases asInt i <;> rfl
+      | stream xs hl hx =>
+        simp only [modPath, bind_ok, atPath]
+        rw [step xs hl hx i]
+        cases asInt i <;> rfl
+      | _ => simp [modPath, atPath]
+    | slice lo hi =>
+      cases lhs <;> simp [modPath, atPath]
+
+/-- `pop x[i₁]…[iₙ]` pops the list at the place the read `x[i₁]…[iₙ]` returns -/
+theorem pop_path_refines (ixs : List Ix) (lhs : Val) (hok : DeepOk lhs) :
+    modPath lhs ixs tryPop = atPath lhs ixs PyIndex.pop :=
+  mod_path_refines ixs lhs _ _ (fun v _ => pop_refines v) hok
+
+theorem seqOk_of_deepOk {v : Val} (h : DeepOk v) : seqOk v := by
+  cases h <;> simp [seqOk] <;> first | assumption | (refine ⟨?_, ?_, ?_⟩ <;> simp_all)
+
+/-- `remove x[i₁]…[iₙ][j]` removes position `pyIndex len j` of the list at that place -/
+theorem remove_path_refines (ixs : List Ix) (lhs j : Val) (hok : DeepOk lhs) :
+    modPath lhs ixs (fun v => tryRemoveIndex v j) = atPath lhs ixs (fun v => PyIndex.removeIndex v j) :=
+  mod_path_refines ixs lhs _ _ (fun v hv => removeIndex_refines v j (seqOk_of_deepOk hv)) hok
+
+/-- `x[i] += d` reads and writes the same position: it is `x[pyIndex] := x[pyIndex] + d` -/
+theorem opAssignAdd_refines (xs : List Val) (i : Val) (d : Int) (hl : lenOk xs.length) :
+    opAssignAdd (.list xs) i d = addAt (.list xs) i d := by
+  have hs : seqOk (.list xs) := hl
+  unfold opAssignAdd addAt
+  rw [index_refines _ i hs rfl]
+  cases i with
+  | int n =>
+    simp only [PyIndex.index, asInt, items, elemOf]
+    cases h : pyIndex (xs.length : Int) n with
+    | none => simp [ofOpt]
+    | some k =>
+      have hr := pyIndex_range h
+      have hk : k.toNat < xs.length := by omega
+      simp only [List.getElem?_eq_getElem hk, ofOpt, bind_ok]
+      rw [set_list_addresses_pyIndex_opt xs _ none false hl]
+      simp only [h, bind_ok, Option.getD_none]
+      cases hx : xs[k.toNat] with
+      | int o =>
+        have hl' : lenOk ((xs.set k.toNat Val.null).length : Int) := by simpa using hl
+        simp only
+        rw [set_list_addresses_pyIndex _ _ _ false hl']
+        simp only [List.length_set, h, List.set_set]
+        simp [setPath, asInt, h, List.getElem?_eq_getElem hk, ofOpt]
+      | _ => rfl
+  | _ => simp [PyIndex.index, asInt]
 
 /-! ## 8. the infinite streams with overrides -/
 
